@@ -5,6 +5,38 @@ sys.path.insert(0, os.path.dirname(os.path.abspath(__file__)))
 import vlib
 
 
+def seeded_selftest(pid):
+    """thorough tier: run this property's quick check against every seeded change recorded for it (in a scratch worktree, never in
+    /repo) and record the kill table in the evidence file.  The verdict of the check is not affected."""
+    import glob, json, subprocess
+    V = vlib.VERIF
+    seeds = []
+    for mp in sorted(glob.glob(os.path.join(V, "seeded", "*", "meta.json"))):
+        m = json.load(open(mp))
+        if pid in m.get("checks", []):
+            seeds.append(os.path.basename(os.path.dirname(mp)))
+    if not seeds:
+        return
+    scratch = os.path.join(os.environ.get("TMPDIR", "/tmp"), "deserr-mut-%s" % pid)
+    p = subprocess.run([sys.executable, os.path.join(V, "tools", "mutants.py")] + seeds + ["--props", pid, "--scratch", scratch],
+                       stdout=subprocess.PIPE, stderr=subprocess.STDOUT, text=True)
+    table = {}
+    for line in p.stdout.splitlines():
+        try:
+            sid, rest = line.split(" ", 1)
+            r = json.loads(rest)
+            table[sid] = r.get(pid, {}).get("verdict", "error") if "error" not in r else "patch does not apply"
+        except Exception:
+            continue
+    evp = os.path.join(vlib.EVID, pid + ".json")
+    ev = json.load(open(evp))
+    ev["coverage"]["seeded_changes"] = {"caught": sorted(k for k, v in table.items() if v == "caught"),
+                                        "not_caught": sorted(k for k, v in table.items() if v != "caught"), "total": len(table)}
+    json.dump(ev, open(evp, "w"), indent=1, sort_keys=True)
+    print("SEEDED property=%s caught=%d of %d %s" % (pid, sum(1 for v in table.values() if v == "caught"), len(table),
+                                                      {k: v for k, v in table.items() if v != "caught"}))
+
+
 def main():
     ap = argparse.ArgumentParser()
     ap.add_argument("pid")
@@ -19,7 +51,10 @@ def main():
         fn_run, fn_replay = registry.CHECKS[a.pid]
         if a.replay:
             return fn_replay(a.pid, a.replay)
-        return fn_run(a.pid, a.tier)
+        rc = fn_run(a.pid, a.tier)
+        if a.tier == "thorough" and rc == 0 and not os.environ.get("VERIF_SKIP_SEEDS") and not os.environ.get("DESERR_REPO"):
+            seeded_selftest(a.pid)
+        return rc
     except vlib.ToolError as e:
         print("TOOL-ERROR property=%s %s" % (a.pid, e), file=sys.stderr)
         return 2
